@@ -27,7 +27,7 @@ EXHAUSTIVE = {
         "thorough": [("E1", cfgc()), ("E3", cfgc(MaxOps=3, MaxExch=2)),
                      ("E2", cfgc(WithBatch=True, MaxExch=2)),                         # batches, removals-first halves
                      ("E4", cfgc(WithBulk=True, WithRestart=True, MaxExch=2)),       # bulk operations, restarts
-                     ("E5", cfgc(Nodes={1, 2, 3}, CNodes={1, 2, 3}, F=2, Times={0, 1}, MaxSkew=1, MaxExch=3)),  # three nodes
+                     ("E5", cfgc(Nodes={1, 2, 3}, CNodes={1, 2}, F=2, Times={0, 1}, MaxSkew=1, MaxExch=2)),  # three nodes, two of them issue
                      ("E6", cfgc(MaxDup=1, MaxExch=3)),                               # duplicated deliveries
                      ("E7", cfgc(WithTracker=True, MaxExch=6)),                       # the poller's keyspace tracker skips unchanged peers
                      ("E8", cfgc(WithTracker=True, WithRestart=True, MaxExch=4))],
